@@ -29,14 +29,16 @@ pub fn run_q(args: &[&str]) -> String {
     }
     let interner = std::sync::Arc::new(cache.into_interner().unwrap());
     let mut toks = Vec::new();
+    let mut rtoks = Vec::new();
     let mut resolved_texts = Vec::new();
     for g in &greens {
         let root: SyntaxNode<K> = SyntaxNode::new_root(g.clone());
         toks.extend(tokens(&root));
-        // the same tree through the resolved API
+        // the same tree through the resolved API (every tree gets its own handle to the shared interner)
         let rroot: ResolvedNode<K> = SyntaxNode::new_root_with_resolver(g.clone(), crate::interners::Shared(std::sync::Arc::clone(&interner)));
         for t in tokens(rroot.syntax()) {
             resolved_texts.push(show_text(t.resolved().text()));
+            rtoks.push(t);
         }
     }
     let descr: Vec<String> = toks
@@ -65,6 +67,29 @@ pub fn run_q(args: &[&str]) -> String {
             .collect();
         rows.push(row);
     }
+    // the same comparisons between tokens of trees that carry a resolver (within and across trees), and mixed
+    let cmp = |xs: &[SyntaxToken<K>], ys: &[SyntaxToken<K>]| -> Vec<String> {
+        xs.iter()
+            .map(|a| {
+                ys.iter()
+                    .map(|b| match catch(|| a.text_eq(b)) {
+                        Ok(true) => "1".to_string(),
+                        Ok(false) => "0".to_string(),
+                        Err(c) => format!("P{c}"),
+                    })
+                    .collect::<String>()
+            })
+            .collect()
+    };
+    let resolved_rows = cmp(&rtoks, &rtoks);
+    let mixed_rows = cmp(&toks, &rtoks);
+    let differ = if resolved_rows != rows {
+        format!(" | RESOLVED-TREES-DIFFER {}", resolved_rows.join(","))
+    } else if mixed_rows != rows {
+        format!(" | MIXED-TREES-DIFFER {}", mixed_rows.join(","))
+    } else {
+        String::new()
+    };
     // "adding a static token by kind alone or together with its text gives the same tree": the trees themselves (kinds,
     // lengths, texts) and which tokens are one allocation
     let mut dumps = Vec::new();
@@ -84,10 +109,11 @@ pub fn run_q(args: &[&str]) -> String {
         ids.push(i);
     }
     format!(
-        "{} | {} | {} | same {}",
+        "{} | {} | {} | same {}{}",
         descr.join(" "),
         rows.join(","),
         dumps.join(" / "),
-        ids.iter().map(|i| i.to_string()).collect::<Vec<_>>().join(",")
+        ids.iter().map(|i| i.to_string()).collect::<Vec<_>>().join(","),
+        differ
     )
 }
